@@ -4,7 +4,7 @@
    the repaired source.  The element type is abstract: the ledger of a cell does not depend on it. *)
 From Coq Require Import List Arith ZArith Lia Bool.
 Import ListNotations.
-From GV Require Import Sched Events RcuModel RcuBase RcuListProofs RcuLogProofs RcuSafetyProofs RcuLedgerProofs RcuProofs.
+From GV Require Import Sched Events RcuModel RcuBase RcuListProofs RcuLogProofs RcuSafetyProofs RcuLedgerProofs RcuFinalProofs RcuProofs.
 
 (* No ledger fault, for every program and every schedule: no construct of a cell that is not freshly
    allocated, no destroy of a cell that is not constructed (in particular nothing that was never
@@ -17,16 +17,21 @@ Proof. exact no_fault. Qed.
    constructed at most once, destroyed at most once and only after construction, deallocated at most
    once and only after destruction; a deallocated cell was constructed, destroyed and deallocated
    exactly once. *)
-Theorem rcu_exactly_once_partial : forall progs s k c, R false progs s -> getc (gl s) k = Some c ->
+Theorem rcu_at_most_once : forall progs s k c, R false progs s -> getc (gl s) k = Some c ->
   fault (gl s) = false /\ (nct c <= 1 /\ ndt c <= nct c /\ nfr c <= ndt c /\
   (cs c = Freed -> nct c = 1 /\ ndt c = 1 /\ nfr c = 1))%nat.
 Proof. exact ledger_exact. Qed.
-(* Full statement (not yet proved; see props/C13.json "partial"):
-     rcu_exactly_once : R false progs s -> all_fin s -> (forall l, In l (thr s) -> hnd l = None) ->
-       let g' := fst (destroy_list (gl s)) in fault g' = false /\ forall c, In c (heap g') -> cs c = Freed.
-   Missing: the classification "every constructed cell is in the list, on the log, or the node of a log
-   record" and the functional correctness of destroy_list.  The implementation-side monitor rcu.ledger
-   checks exactly this on every run (final line -2 -1 <cells> <not freed> <fault>). *)
+
+(* Exactly once, in the end: when every thread has finished its program and every handle has been
+   released ([quiet]), ~rcu_list ([destroy_list], the function whose allocator calls the final lines of
+   the trace print) runs without a fault and leaves every cell that was ever allocated - list nodes,
+   erased nodes still on the log, registration and erase records - deallocated, each constructed
+   exactly once, destroyed exactly once and deallocated exactly once. *)
+Theorem rcu_exactly_once : forall progs s, R false progs s -> quiet s ->
+  let g' := fst (destroy_list (gl s)) in
+  fault g' = false /\
+  forall k c, getc g' k = Some c -> (cs c = Freed /\ nct c = 1 /\ ndt c = 1 /\ nfr c = 1)%nat.
+Proof. exact exactly_once. Qed.
 
 (* A release destroys a list node only if the node has a log record made by erase: the node is marked
    deleted and out of the list.  Hence with nothing erased a release frees only handle records. *)
@@ -46,3 +51,7 @@ Theorem rcu_fixed_same_run_ok :
   fault (gl (run glob loc tstep (init false unfixed_progs) unfixed_sched)) = false /\
   final (run glob loc tstep (init false unfixed_progs) unfixed_sched) = [[-2; -3]; [-2; 52; 1]; [-2; 53; 1]; [-2; -1; 2; 0; 0]]%Z.
 Proof. exact fixed_same_run_ok. Qed.
+
+(* non-vacuity of [quiet]: the corpus reproducer run to its end *)
+Example ex_quiet : quiet (run glob loc tstep (init false unfixed_progs) unfixed_sched).
+Proof. vm_compute. split; [reflexivity|]. intros l [<-|[]]. reflexivity. Qed.
